@@ -14,7 +14,8 @@ from ..runner import Skip
 RULE = ("cases from rng(seed, 4, 0, i): connected-per-cluster graphs of R^2 and/or R^3 points (2..30 vertices: trees, loops, parallel edges, "
         "point-to-point landmark edges with offsets), >=1 fixed vertex per component, initial guess displaced by 10^U(-2,6), SPD information with "
         "cond up to 1e6, measurement noise 10^U(-3,1); optimize() with default arguments or random tol in 10^U(-10,-2), max_iter in 1..20; every 3rd case then edits the problem in place (information replaced / scaled in place, measurement, a vertex, a fixed flag) and re-optimizes the same graph object. "
-        "distinct = spec fingerprint; non-trivial = some free vertex is displaced by more than 1e-3 from the optimum initially and cond(H)<=1e10.")
+        "distinct = spec fingerprint; non-trivial = some free vertex is displaced by more than 1e-3 from the optimum initially and cond(H)<=1e10."
+        " later additions: sparse information patterns, a second live graph over the same objects, the first vertex fixed only through the argument, initial guesses 1e6..3e8 off.")
 REQ = ["eval:optimum-reached", "eval:final-chi2-at-optimum", "class:landmark_edges", "class:parallel_edges", "class:far_initial_guess", "class:mixed_dimensions",
        "class:illconditioned_information", "class:shared_pose_storage", "class:reoptimised_after_edits", "eval:optimum-reached-after-edits", "class:information_scales:per_edge", "class:information_scales:all_tiny", "class:edges_prebound_to_stale_vertices", "class:information_sparse:zero_rows_and_blocks", "class:information_sparse:offdiagonals_cancel_in_sum", "class:second_live_graph_over_the_same_objects", "class:first_vertex_fixed_only_by_the_argument_while_others_carry_flags"]
 PLAN = {
